@@ -59,7 +59,7 @@ class P(Prop):
         ops = []
         messy = rng.random() < 0.3
         for i in perm:
-            ops.append([0, i, rng.randint(-9, 99)])
+            ops.append([0, i, rng.choice([0, 0, rng.randint(-9, 99)])])
             if rng.random() < 0.3:
                 ops.append([1])
             if messy and rng.random() < 0.2:
@@ -76,7 +76,7 @@ class P(Prop):
         ops = []
         messy = rng.random() < 0.4
         for i in perm:
-            ops.append([0, i, rng.randint(-9, 99)])
+            ops.append([0, i, rng.choice([0, 0, rng.randint(-9, 99)])])
             if messy and rng.random() < 0.15:
                 ops.append([0, rng.randint(-2, n + 2), rng.randint(0, 9)])
             if messy and rng.random() < 0.1:
@@ -153,12 +153,14 @@ class P(Prop):
                 out.seek(0)
                 out.truncate(0)
                 if op[0] == 0:
-                    ret = b.print(op[1], str(op[2]))
+                    # payload 0 is sent as the empty string (a falsy value must still be printed once)
+                    ret = b.print(op[1], "" if op[2] == 0 else str(op[2]))
                 elif op[0] == 1:
                     ret = b.flush()
                 else:
                     ret = b.clear()
-                printed = [int(x) for x in out.getvalue().split("\n") if x]
+                lines = out.getvalue().split("\n")[:-1]
+                printed = [int(x) if x else 0 for x in lines]
                 tr.append([printed, 1 if ret is True else 0, len(b), b.waiting_for])
             return tr
         from windpyutils.structures.circular_buffer import CircularBuffer
